@@ -7,6 +7,7 @@ package workflow
 // abstract-step harnesses and serves C09 (the result of a healthy chain does not depend on scheduling).
 
 import (
+	"go.flow.arcalot.io/engine/internal/infer"
 	"go.flow.arcalot.io/engine/internal/step"
 	"go.flow.arcalot.io/engine/internal/step/plugin"
 	"go.flow.arcalot.io/engine/internal/verifrt"
@@ -246,5 +247,30 @@ func VerifH_C03_real_stuck_waiter() {
 	verifrt.Assert(eb.VerifExecuted() == 0, "the second plugin is never executed")
 	verifrt.Settle()
 	verifrt.Assert(ea.VerifAllClosed() && eb.VerifAllClosed(), "every deployed plugin (including the schema probes) was closed")
+	verifrt.Assert(verifrt.LiveGoroutines() == 0, "no goroutine survives the run")
+}
+
+
+// C09 / composition: the only output joins the success output of a REAL plugin step with a wait-optional
+// value from a stage the step does not go through (crashed). Once the plugin has succeeded the result is
+// fixed - the optional value is absent. However slow the step's goroutine is between two of its
+// notifications (stall decision), the run returns that result and does not report a standstill.
+func VerifH_C09_real_optional_other_stage() {
+	ea := plugin.VerifNewScriptedEnv("success")
+	steps := []vRealStep{{id: "a", env: ea, fields: map[string]any{"input": verifStepInput(vx("input"))}}}
+	ew := verifPrepareReal(steps, map[string]any{"success": map[any]any{
+		"r": vx("steps", "a", "outputs", "success", "v"),
+		"c": &infer.OptionalExpression{Expr: vx("steps", "a", "crashed", "error"), WaitForCompletion: true},
+	}})
+	res := verifExecute(ew, newRun(), tWorkflow{}, verifrt.NondetVal("input"))
+	verifrt.Assert(!res.stuck, "the run returns")
+	verifrt.Assert(res.err == nil && res.id == "success", "the result is fixed once the plugin succeeded: it is returned however slow the step's goroutine is between two notifications")
+	if res.err == nil {
+		verifrt.Reach("output")
+		m, ok := res.data.(map[any]any)
+		_, has := m["c"]
+		verifrt.Assert(ok && !has, "the wait-optional value of the stage that did not happen is absent")
+	}
+	verifrt.Settle()
 	verifrt.Assert(verifrt.LiveGoroutines() == 0, "no goroutine survives the run")
 }
